@@ -92,6 +92,12 @@ def plan_jobs(prop, tier, rnd):
     q = tier == "quick"
     if prop in ("C13", "C19"):
         slices = [("Y", 4), ("B", 3), ("F", 3), ("M", 3), ("C", 3)]
+    elif prop == "C05":
+        slices = [("Y", 4), ("C", 3)]
+    elif prop == "C06":
+        slices = [("Y", 4), ("T", 3), ("Z", 3)]
+    elif prop == "C07":
+        slices = [("M", 3), ("B", 3), ("F", 3)]
     elif prop == "C14":
         slices = [("T", 3), ("Y", 4), ("B", 3), ("F", 3)]
     elif prop == "C15":
@@ -101,7 +107,7 @@ def plan_jobs(prop, tier, rnd):
     pools, stats = histories_for(slices, rnd)
     names = [s for s, _ in slices]
     jobs = []
-    n = {"C13": 110, "C19": 130, "C14": 110, "C15": 120, "C20": 100}[prop] * (1 if q else 12)
+    n = {"C13": 110, "C19": 130, "C14": 110, "C15": 120, "C20": 100, "C05": 60, "C06": 60, "C07": 60}[prop] * (1 if q else 12)
     langs = {c: shipped_languages(c) for c in ("us", "jp", "es", "ie", "generic")}
     for i in range(n):
         k = 1 + (i % 3) if prop != "C19" else 2 + (i % 2)
@@ -124,7 +130,7 @@ def plan_jobs(prop, tier, rnd):
             lang = rnd.choice([l for l in langs["jp"] if l in ("en", "kl", "ja")] or ["en"])
         elif rnd.random() < 0.3 and langs[country]:
             lang = rnd.choice(langs[country])
-        if prop == "C15":
+        if prop in ("C15", "C07"):
             shape = ["none", "to", "none", "to"][i % 4]
         elif prop == "C19":
             shape = ["from", "fromto", "none", "from", "to"][i % 5]
@@ -259,6 +265,28 @@ def mutate(tr, prop, rnd):
                 r = rnd.choice(rows)
                 r["run"] += 1
             ok = True
+    elif prop == "C05":
+        cands = [(k, q) for k, e in enumerate(t["as"]) for q, d in enumerate(e["doc"]["detail"]) if d["lot"] != 0]
+        if cands:
+            k, q = rnd.choice(cands)
+            d = t["as"][k]["doc"]["detail"][q]
+            d["long"] = not d["long"]
+            ok = True
+    elif prop == "C06":
+        cands = [k for k, e in enumerate(t["as"]) if e["doc"]["summary"]]
+        if cands:
+            rows = t["as"][rnd.choice(cands)]["doc"]["summary"]
+            rnd.choice(rows)[rnd.choice([3, 4, 5, 6])] += 1
+            ok = True
+    elif prop == "C07":
+        cands = [k for k, e in enumerate(t["as"]) if e["doc"]["balances"]]
+        if cands:
+            doc = t["as"][rnd.choice(cands)]["doc"]
+            if rnd.random() < 0.5 and doc["totals"]:
+                rnd.choice(doc["totals"])[1] += 1
+            else:
+                rnd.choice(doc["balances"])[rnd.choice([1, 2, 3, 4])] += 1
+            ok = True
     elif prop == "C19":
         cands = [(k, q) for k, e in enumerate(t["as"]) for q, d in enumerate(e["doc"]["detail"]) if d["lot"] != 0 and d["lotlinks"] and d["lotlinks"][0][0] not in ("", "?")]
         if cands:
@@ -323,7 +351,7 @@ def mutate(tr, prop, rnd):
 
 
 def has_key(prop):
-    return {"C13": "full", "C19": "full", "C14": "tax", "C15": "open", "C20": "jp"}[prop]
+    return {"C13": "full", "C19": "full", "C14": "tax", "C15": "open", "C20": "jp", "C05": "full", "C06": "full", "C07": "full"}[prop]
 
 
 def _tx(cls, type_, day, amt, price=2, sec=43200, a1=11, a2=0, fee=0):
@@ -407,11 +435,11 @@ def model_check_design(prop):
     return res
 
 
-def run(prop, tier):
+def run(prop, tier, keep_replays=False):
     timer = common.Timer()
     rnd = random.Random(common.seed() * 7919 + int(prop[1:]))
     printed, violations = [], []
-    common.clear_replays(prop)
+    del keep_replays
     mcres = model_check_design(prop)
     states = sum(r["states"] for r in mcres)
     transitions = sum(r["transitions"] for r in mcres)
